@@ -94,12 +94,12 @@ def check_mat2quat(run, S, name, spec, kw):
     prefix = spec[1]
     r = run.use_root(S, name)
     if r is None:
-        run.ob('%s:%s:present' % (PROP, name), False, rule='root-present', expected='root', found='missing')
+        run.ob('%s:%s:present' % (run.prop, name), False, rule='root-present', expected='root', found='missing')
         return
     where = r.get('span')
     ls = ret_leaves(r['out'])
     if any(l['k'] != 'ret' for g, l in ls):
-        run.ob('%s:%s:analysable' % (PROP, name), False, rule='analysable', expected='only Return leaves', found=[(l['k'], l.get('why')) for g, l in ls if l['k'] != 'ret'][:2], where=where)
+        run.ob('%s:%s:analysable' % (run.prop, name), False, rule='analysable', expected='only Return leaves', found=[(l['k'], l.get('why')) for g, l in ls if l['k'] != 'ret'][:2], where=where)
         return
     # substitute M(q) for the input matrix
     qn = 'q'
@@ -120,7 +120,7 @@ def check_mat2quat(run, S, name, spec, kw):
             ov, os_ = out[0], out[1]
             outs = {'x': ov[0], 'y': ov[1], 'z': ov[2], 's': os_}
             sig = [a_ for a_ in set().union(*[o.atoms() for o in outs.values()]) if A.CTX.kind[a_][0] == 'sqrt']
-            key = '%s:%s:leaf%d' % (PROP, name, li)
+            key = '%s:%s:leaf%d' % (run.prop, name, li)
             if len(sig) != 1:
                 run.ob(key + ':sqrt', False, rule='K3 Shepperd scheme', expected='exactly one square root per branch', found='%d sqrt atoms' % len(sig), where=where)
                 continue
@@ -153,49 +153,48 @@ def check_mat2quat(run, S, name, spec, kw):
     cvp = Conv(S)
     tr = El.v(diag[0]) + El.v(diag[1]) + El.v(diag[2])
 
-    def eval_guard(tid, ranks, trace_nonneg):
-        t = S.terms[tid]
-        if t[0] != 'a' or len(t[2]) != 2:
-            return None
-        op = t[1]
-        a_, b_ = cvp.el(t[2][0]), cvp.el(t[2][1])
-        d = a_ - b_
-
-        def cmp_res(c):  # c = sign of (lhs - rhs): -1, 0, +1
-            return {'gt': c > 0, 'ge': c >= 0, 'lt': c < 0, 'le': c <= 0, 'eq': c == 0, 'ne': c != 0}.get(op)
+    def sign_of(d, ranks, trace_sign):
+        """sign of the difference d in the abstract state, or None if d is outside the vocabulary"""
         if A.eq(d, tr):
-            # trace compared with 0: abstract value: non-negative (treated as > 0 or = 0 both on the >= side) or negative
-            if op not in ('ge', 'lt'):
-                return None
-            return cmp_res(1) if trace_nonneg else cmp_res(-1)
+            return trace_sign
         if A.eq(d, -tr):
-            if op not in ('le', 'gt'):
-                return None
-            return cmp_res(-1) if trace_nonneg else cmp_res(1)
+            return -trace_sign
         for i in range(3):
             for j in range(3):
                 if i != j and A.eq(d, El.v(diag[i]) - El.v(diag[j])):
-                    c = (ranks[j] > ranks[i]) - (ranks[j] < ranks[i])   # rank 0 = largest
-                    return cmp_res(c)
+                    return (ranks[j] > ranks[i]) - (ranks[j] < ranks[i])   # rank 0 = largest
+        return None
+
+    def eval_guard(kind, tid, want, ranks, trace_sign):
+        """does the guard hold in the abstract state?  `if a OP b` and `match a.partial_cmp(&b)` (0 Less, 1 Equal, 2 Greater,
+        3 unordered - impossible for the ordered values the abstract states stand for)"""
+        t = S.terms[tid]
+        if t[0] != 'a' or len(t[2]) != 2:
+            return None
+        c = sign_of(cvp.el(t[2][0]) - cvp.el(t[2][1]), ranks, trace_sign)
+        if c is None:
+            return None
+        if kind == 'ite':
+            res = {'gt': c > 0, 'ge': c >= 0, 'lt': c < 0, 'le': c <= 0, 'eq': c == 0, 'ne': c != 0}.get(t[1])
+            return None if res is None else (res == want)
+        if kind == 'switch' and t[1] == 'cmp' and want in (0, 1, 2, 3):
+            return {0: c < 0, 1: c == 0, 2: c > 0, 3: False}[want]
         return None
     n_abs = 0
     if leafinfo and len(leafinfo) == len(ls):
         for ranks in weak_orderings3():
-            for trace_nonneg in (True, False):
+            for trace_sign in (1, 0, -1):
                 n_abs += 1
                 taken = []
                 undecided = False
                 for guards, pivot in leafinfo:
                     ok = True
                     for kind, tid, want in guards:
-                        if kind != 'ite':
-                            ok = None
-                            break
-                        gv = eval_guard(tid, ranks, trace_nonneg)
+                        gv = eval_guard(kind, tid, want, ranks, trace_sign)
                         if gv is None:
                             ok = None
                             break
-                        if gv != want:
+                        if not gv:
                             ok = False
                             break
                     if ok is None:
@@ -203,11 +202,11 @@ def check_mat2quat(run, S, name, spec, kw):
                         break
                     if ok:
                         taken.append(pivot)
-                key = '%s:%s:select:%s:%s' % (PROP, name, ''.join(map(str, ranks)), 'tr>=0' if trace_nonneg else 'tr<0')
+                key = '%s:%s:select:%s:%s' % (run.prop, name, ''.join(map(str, ranks)), {1: 'tr>0', 0: 'tr=0', -1: 'tr<0'}[trace_sign])
                 if undecided:
-                    run.ob(key, False, rule='K12 finite ordering enumeration', expected='guards are comparisons of the trace with 0 or of diagonal elements with each other', found='a guard outside that vocabulary', where=where)
+                    run.ob(key, False, rule='K12 finite ordering enumeration', expected='guards are comparisons (if-form or partial_cmp match) of the trace with 0 or of diagonal elements with each other', found='a guard outside that vocabulary', where=where)
                     continue
-                if trace_nonneg:
+                if trace_sign >= 0:
                     good = len(taken) == 1 and taken[0] == 's'
                     exp = 'pivot w (scalar part) when the trace is non-negative'
                 else:
@@ -228,7 +227,7 @@ def run(tier):
     run_specs(run, S, h, custom={'qmat': check_qmat, 'mat2quat': check_mat2quat, 'rot_unit': check_rot_unit, 'compose': check_compose})
     run.floor('roots', len(run.roots), len(h.specs))
     return run.finish(
-        explanation='From<Quaternion> for Matrix3/Matrix4/Basis3 are shown equal, modulo the unit-norm relation, to the rotation matrix of q derived on the spec side from the sandwich product; rotation by the converted Matrix3/Basis3/Matrix4 and matrix(p*q) = matrix(p) matrix(q) are checked on the composed code. For From<Matrix3>/From<Basis3> for Quaternion every Return leaf is analysed after substituting M(q) for the input: its square-root argument must equal 4c^2 for one pivot c and every output d must satisfy out_d * 2 sqrt = 4cd, i.e. the leaf returns q or -q; branch selection is decided by enumerating all 13 weak orderings of the diagonal x 2 trace signs and evaluating the guards of the outcome tree on each (pivot w iff trace >= 0, otherwise a maximal diagonal element). Orthonormality, det = +1 and the homomorphism property are verified on the spec side.',
+        explanation='From<Quaternion> for Matrix3/Matrix4/Basis3 are shown equal, modulo the unit-norm relation, to the rotation matrix of q derived on the spec side from the sandwich product; rotation by the converted Matrix3/Basis3/Matrix4 and matrix(p*q) = matrix(p) matrix(q) are checked on the composed code. For From<Matrix3>/From<Basis3> for Quaternion every Return leaf is analysed after substituting M(q) for the input: its square-root argument must equal 4c^2 for one pivot c and every output d must satisfy out_d * 2 sqrt = 4cd, i.e. the leaf returns q or -q; branch selection is decided by enumerating all 13 weak orderings of the diagonal x 3 trace signs and evaluating the guards of the outcome tree on each (pivot w iff trace >= 0, otherwise a maximal diagonal element). Orthonormality, det = +1 and the homomorphism property are verified on the spec side.',
         trusted_base=['rustc nightly type checking / trait resolution / MIR construction', 'mirsum abstract interpreter and scalar-operation models (sqrt is the real square root, cast(0.5) exact)', 'rules/algebra.py normal forms incl. sqrt atoms', 'rules/specs.py (checked by selfcheck)', 'lemma: sqrt(4c^2) = 2|c|'],
         not_decided=['numerical stability near branch boundaries'],
         exhaustive=True)
